@@ -113,7 +113,7 @@ func (lg *locGen) op() map[string]interface{} {
 		"expiry":    {25, 12, 3, 2, 14, 2, 14, 12, 2, 0, 0, 0, 2, 8, 0, 0, 0},
 		"query":     {34, 2, 6, 0, 2, 0, 6, 0, 0, 1, 0, 0, 0, 3, 1, 40, 0},
 		//            (addrule weight is used for rules with conditions/actions; last column: process)
-		"cache":     {26, 12, 8, 5, 8, 3, 12, 10, 4, 1, 3, 2, 3, 0, 0, 0, 0},
+		"cache":     {26, 12, 8, 5, 8, 3, 12, 10, 4, 1, 3, 2, 3, 0, 3, 0, 0},
 		"cronhooks": {14, 34, 8, 14, 2, 2, 2, 3, 3, 3, 0, 0, 1, 8, 0, 0, 6},
 		"fuzz":      {1, 1, 1, 1, 1, 1, 1, 1, 1, 1, 1, 1, 1, 1, 1, 1, 1},
 		"durable":   {30, 12, 10, 5, 6, 2, 10, 5, 4, 1, 2, 1, 2, 9, 0, 0, 0},
@@ -345,7 +345,14 @@ func (lg *locGen) op() map[string]interface{} {
 		if lg.profile == "lifecycle" {
 			sel = 7
 		}
+		if lg.profile == "cache" {
+			sel = 8
+		}
 		switch sel {
+		case 8:
+			// the location's own cache TTL (ms), well-formed or not: whatever it says, the results of the
+			// requests do not depend on it
+			o["fact"] = map[string]interface{}{"!cacheTTL": pick(r, 0.0, 1.0, 60000.0, "soon", true, 1.0).(interface{})}
 		case 0:
 			o["fact"] = map[string]interface{}{"!writeKey": pick(r, "wkey", "wkey", "").(string)}
 		case 1:
